@@ -62,6 +62,11 @@ func (i *interpreter) fmtValue(fr *frame, verb byte, plus bool, t types.Type, v 
 		}
 	}
 	switch x := v.(type) {
+	case *rope:
+		if x.done == nil && (verb == 's' || verb == 'v') {
+			return x.parts
+		}
+		return i.fmtValue(fr, verb, plus, t, x.force(), depth)
 	case string:
 		switch verb {
 		case 'x':
@@ -93,7 +98,7 @@ func (i *interpreter) fmtValue(fr *frame, verb byte, plus bool, t types.Type, v 
 			return strElems("false")
 		}
 		if verb == 'd' || verb == 'v' {
-			return strElems(decimalBV(fr, x))
+			return []value{lazyDec{fr: fr, v: x}}
 		}
 		panic(engineError{"fmt: verb %" + string(verb) + " on symbolic integer"})
 	case int, int8, int16, int32, int64, uint, uint8, uint16, uint32, uint64, uintptr, float32, float64:
@@ -319,13 +324,13 @@ func init() {
 		if !ok {
 			panic(engineError{"fmt.Sprintf with symbolic format"})
 		}
-		return mkStr(fr.i.sprintf(fr, f, args[1].([]value)))
+		return mkRope(fr.i.sprintf(fr, f, args[1].([]value)))
 	}
 	externals["fmt.Sprint"] = func(fr *frame, args []value) value {
-		return mkStr(fr.i.sprint(fr, args[0].([]value), false))
+		return mkRope(fr.i.sprint(fr, args[0].([]value), false))
 	}
 	externals["fmt.Sprintln"] = func(fr *frame, args []value) value {
-		return mkStr(fr.i.sprint(fr, args[0].([]value), true))
+		return mkRope(fr.i.sprint(fr, args[0].([]value), true))
 	}
 	externals["fmt.Errorf"] = func(fr *frame, args []value) value {
 		// message text is kept opaque (the unformatted format string); %w cause is retained
@@ -369,4 +374,20 @@ func init() {
 		}
 		return "error"
 	}
+}
+
+// mkRope builds a string from formatted pieces, staying lazy when a piece is a lazyDec.
+func mkRope(parts []value) value {
+	for _, p := range parts {
+		if _, ok := p.(lazyDec); ok {
+			return &rope{parts: parts}
+		}
+	}
+	return mkStr(parts)
+}
+
+// lazyOK lists intrinsics that accept lazily rendered strings as arguments without inspecting them.
+var lazyOK = map[string]bool{
+	"fmt.Sprintf": true, "fmt.Sprint": true, "fmt.Sprintln": true, "fmt.Errorf": true,
+	"cosmossdk.io/errors.Wrapf": true,
 }
